@@ -70,7 +70,7 @@ func genSeq(r *lib.Rng, tier string) *Case {
 			emit(Op{K: "array", Xs: xs})
 			return
 		}
-		cp := r.Intn(5)
+		cp := r.Intn(7)
 		emit(Op{K: "pipe", Cap: cp})
 		hp := len(sh.hs) - 1
 		n := r.Intn(cp + 1)
@@ -79,7 +79,7 @@ func genSeq(r *lib.Rng, tier string) *Case {
 			emit(Op{K: "send", H: hp, X: &x})
 			sh.pipes[hp].attempts++
 		}
-		if r.Chance(2, 3) {
+		if r.Chance(1, 2) {
 			emit(Op{K: "closesend", H: hp})
 			sh.pipes[hp].sclosed = true
 		}
@@ -129,6 +129,21 @@ func genSeq(r *lib.Rng, tier string) *Case {
 			if !sh.hs[h].closed || (sh.hs[h].idem && r.Chance(1, 2)) {
 				emit(Op{K: "close", H: h})
 				sh.hs[h].closed = true
+				// probe: is the writer told closed exactly when every derived reader is closed?
+				var hps []int
+				for hp, p := range sh.pipes {
+					if _, fed := sh.hs[h].srcs[hp]; fed && !p.sclosed && p.attempts < p.cap {
+						hps = append(hps, hp)
+					}
+				}
+				sortInts(hps)
+				for _, hp := range hps {
+					if r.Chance(2, 3) {
+						x := Item{V: nextVal()}
+						emit(Op{K: "send", H: hp, X: &x})
+						sh.pipes[hp].attempts++
+					}
+				}
 			}
 		case k < 19: // send / closesend on a pipe
 			var ps []int
